@@ -90,6 +90,7 @@ theorem inv2_onFeedback (h : Hist) (hi : Inv2 h) (ts : Int) (c : Nat) (a : RAck)
     rw [hl] at hw
     have hm : ∃ e ∈ h.packets, e.1 = c := ⟨(c, p), alookup_mem _ _ _ hl, rfl⟩
     have hk : keys { h with packets := ainsert h.packets c { p with arrived := a.arrived, arr := a.arrival, ecn := a.ecn },
+                            acked := h.acked || a.arrived,
                             highestAcked := if a.arrived ∧ h.highestAcked < p.ctr then p.ctr else h.highestAcked } = keys h := by
       simp only [keys]; exact ainsert_keys _ _ _ hm
     exact ⟨hw, by rw [hk]; exact hi.sorted, by rw [hk]; exact hi.bnd, hi.le⟩
@@ -191,15 +192,15 @@ theorem sub_setClean (f : Hist) (x : Nat) :
 theorem cleanBefore_sub (h : Hist) (c : Nat) : Sub (cleanBefore h c) h ∧ (cleanBefore h c).nextReport = h.nextReport := by
   obtain ⟨a, b⟩ := cleanFold_sub (List.range' h.cleanUntil (c - h.cleanUntil)) h
   have e : cleanBefore h c =
-      { (List.range' h.cleanUntil (c - h.cleanUntil)).foldl cleanStep h with cleanUntil := pred64 c } := rfl
+      { (List.range' h.cleanUntil (c - h.cleanUntil)).foldl cleanStep h with cleanUntil := c } := rfl
   rw [e]
-  obtain ⟨u, v⟩ := sub_setClean ((List.range' h.cleanUntil (c - h.cleanUntil)).foldl cleanStep h) (pred64 c)
+  obtain ⟨u, v⟩ := sub_setClean ((List.range' h.cleanUntil (c - h.cleanUntil)).foldl cleanStep h) c
   exact ⟨sub_trans u a, v.trans b⟩
 
 theorem inv2_buildReport (h : Hist) (hi : Inv2 h) : Inv2 (buildReport h).1 := by
   have hwf := (buildReport_spec h hi.wf).2.2.2
   unfold buildReport at hwf ⊢
-  by_cases hgt : h.nextReport > h.highestAcked
+  by_cases hgt : h.acked = false ∨ h.nextReport > h.highestAcked
   · rw [if_pos hgt]; exact hi
   · rw [if_neg hgt] at hwf ⊢
     have spec := reportLoop_sub (List.range' h.nextReport (h.highestAcked + 1 - h.nextReport)) h [] hi.wf
